@@ -321,6 +321,19 @@ func (c *schemaCtx) field(key, path, parentSchema, fieldName string, t *Type, f 
 				c.add(key, kp+".entity.tenant_key", qq(f.Tenant))
 			}
 		}
+		switch {
+		case t.KeyPrimary:
+			c.add(key, kp+".entity.type", "primary_key")
+			c.add(key, kp+".entity.primary_key", "true")
+		case t.KeyForeign != "":
+			i := strings.LastIndex(t.KeyForeign, ".")
+			c.add(key, kp+".entity.type", "foreign_key")
+			c.add(key, kp+".entity.foreign_key.package", qq(t.KeyForeign[:i]))
+			c.add(key, kp+".entity.foreign_key.entity", qq(t.KeyForeign[i+1:]))
+		}
+		if t.KeyTenant != "" {
+			c.add(key, kp+".entity.tenant_key", qq(t.KeyTenant))
+		}
 	case "any":
 		if t.AnyOnlyDefined {
 			c.add(key, kp+".only_defined", "true")
